@@ -331,6 +331,10 @@ def install():
             raise PyRaise('ValueError', 'math domain error')
         return ex.ctx.log10(Sym(to_z3_num(x, True)))
 
+    @_B('math.pow')
+    def _pow(ex, a, b):
+        return ex.power(a, b)
+
     @_B('math.floor')
     def _floor(ex, x):
         if isinstance(x, Sym):
